@@ -72,6 +72,13 @@ class C08(VariantCheck):
         # the per-level routing shared with PGMIndex (window scan / windowed binary search) + the PGMIndex search model
         import props_static
         ms = self.routing_models(tier, work)
+        for eps in (1, 2, 3):
+            name = "CompIntercepts_e%d" % eps
+            cfg = os.path.join(work, name + ".cfg")
+            with open(cfg, "w") as f:
+                f.write("CONSTANTS Eps = %d\n MaxSegs = 4\n MaxRank = %d\n Slack = %d\nSPECIFICATION Spec\nINVARIANTS BuilderOK ClampOK DecodedOK\nCHECK_DEADLOCK FALSE\n" % (eps, 8 + 4 * eps, eps))
+            ms.append(ModelRun("CompIntercepts.tla", cfg, name + " (clamped, Elias-Fano coded intercepts stay strictly increasing and within Eps)", workers=2, timeout=900,
+                               constants={"Eps": eps, "MaxSegs": 4, "MaxRank": 8 + 4 * eps}))
         for eps, er, route in ((1, 1, "linear"), (1, 1, "binary_window"), (1, 0, "binary_one_level")):
             name = "PGM_e%d_r%d_%s" % (eps, er, route)
             ms.append(ModelRun("PGMIndex.tla", props_static.pgm_cfg(work, name, 8, 6, eps, er, 8, route, 1, props_static.PGM_INV), name, workers=2, timeout=1500,
